@@ -436,6 +436,18 @@ def robot_check(ctx, pid):
                 corpus.append(json.load(open(os.path.join(cdir, f)))["case"])
     cases = corpus + [gen_case(r, pid) for _ in range(n)]
     outs = run_many(cases)
+    # a robot that could not be driven (start-up or step timed out on a loaded machine) is retried alone
+    retried = 0
+    nund = sum(1 for o in outs if o.get("error") or o.get("hung") or o.get("startup_failed"))
+    for i, o in enumerate(outs):
+        if nund <= 6 and (o.get("error") or o.get("hung") or o.get("startup_failed")):
+            for attempt in range(2):
+                retried += 1
+                o2 = run_one(cases[i], timeout=240)
+                if not (o2.get("error") or o2.get("hung") or o2.get("startup_failed")):
+                    outs[i] = o2
+                    break
+    ctx.coverage["robots_retried"] = retried
     pairs = []
     undriven = []
     ntriv = 0
